@@ -81,8 +81,17 @@ pub fn run_query(bytes: &[u8], q: &Query) -> Result<Vec<Entry>, String> {
 /// in-memory file under the alternating transfer policy). The property a caller checks does not
 /// depend on how the source serves reads, so the same oracle applies.
 pub fn run_query_short(bytes: &[u8], q: &Query) -> Result<Vec<Entry>, String> {
+    // two fixed adversarial schedules: every transfer interrupted once and then moving one byte
+    // (no call ever gets all it asked for), and the cycling one (1 byte, half, len-1, interrupted,
+    // full); a fixed cycle alone can hand "full" to one particular call every time
+    let ctl = vlib::sio::Ctl::new(vlib::sio::Policy::InterruptThenOne);
+    let a = run_query_on(|| vlib::sio::SFile::with_data(&ctl, bytes.to_vec()), bytes.len(), q);
     let ctl = vlib::sio::Ctl::new(vlib::sio::Policy::Alternate);
-    run_query_on(|| vlib::sio::SFile::with_data(&ctl, bytes.to_vec()), bytes.len(), q)
+    let b = run_query_on(|| vlib::sio::SFile::with_data(&ctl, bytes.to_vec()), bytes.len(), q);
+    if a != b {
+        return Err(format!("answers differ between two read schedules: one-byte transfers -> {:?}, cycling transfers -> {:?}", a.as_ref().map(|r| describe_result(r)), b.as_ref().map(|r| describe_result(r))));
+    }
+    a
 }
 
 fn run_query_on<R: std::io::Read + std::io::Seek + Clone>(mk: impl Fn() -> R, file_len: usize, q: &Query) -> Result<Vec<Entry>, String> {
